@@ -1,4 +1,4 @@
-//! C15 -- the transposition bucket (Kani, fully symbolic 8 slots) and the sub-table routing.
+//! C15 -- the transposition bucket (Kani, fully symbolic 8 slots).  The sub-table routing is in c15_routing.rs.
 //! Child module of `weechess_engine::searcher`.  The table over a Vec of any length is the Verus part.
 use super::*;
 use weechess_core::Move;
@@ -171,43 +171,4 @@ fn c15_bucket_insert_contract() {
     kani::cover!(matches!(r, TranspositionInsertionResult::Replaced) && !kept, "Replaced with a victim reachable");
 }
 
-// ---- the routing layer (TranspositionTableAccess over RwLock'ed sub-tables), bounded ---------------------------------------
-
-fn stub_vec_push<T, A: std::alloc::Allocator>(v: &mut Vec<T, A>, value: T) {
-    let len = v.len();
-    assert!(len < v.capacity(), "the harness vector has spare capacity");
-    unsafe {
-        std::ptr::write(v.as_mut_ptr().add(len), value);
-        v.set_len(len + 1);
-    }
-}
-
-fn small_table() -> TranspositionTable {
-    let mut buckets = Vec::with_capacity(2);
-    buckets.push(TranspositionBucket::empty());
-    buckets.push(TranspositionBucket::empty());
-    TranspositionTable { buckets, used_slots: 0 }
-}
-
-/// insert-then-find through TranspositionTableAccess hits the same sub-table and bucket; another key is not found; the
-/// entry count over the sub-tables is one (2 sub-tables x 2 buckets, symbolic keys and entry; executed sequentially:
-/// Kani has no scheduler, the locks are taken and released on one thread)
-#[kani::proof]
-#[kani::unwind(10)]
-#[kani::stub(std::vec::Vec::push, stub_vec_push)]
-fn c15_access_routing_bounded() {
-    let mut tables = Vec::with_capacity(2);
-    tables.push(RwLock::new(small_table()));
-    tables.push(RwLock::new(small_table()));
-    let access = TranspositionTableAccess { tables };
-    let h: Hash = kani::any();
-    let e = any_entry();
-    assert!(access.find(h).is_none());
-    access.insert(h, e);
-    let r = access.find(h);
-    assert!(r.is_some() && entry_eq(&r.unwrap(), &e));
-    let k: Hash = kani::any();
-    kani::assume(k != h);
-    assert!(access.find(k).is_none());
-    kani::cover!(h % 2 == 1 && (h / 2) % 2 == 1, "odd sub-table reachable");
-}
+// the routing layer (TranspositionTableAccess) is in c15_routing.rs
